@@ -124,6 +124,12 @@ def build(ctx):
     sch3, inc3 = hgen.gen_headers(ctx, "vs_data_le.xml"); sch3b, inc3b = hgen.gen_headers(ctx, "vs_data_be.xml")
     sels[id(sch3)] = [("m_uint64_char", 14), ("m_uint32_uint8", 10)]; sels[id(sch3b)] = [("m_uint64_uint8", 14), ("m_uint16_char", 8)]
     plan += [(sch3, inc3, "17", "unchecked")] if ctx.quick else [(sch3, inc3, "17", "unchecked"), (sch3b, inc3b, "20", "unchecked")]
+    # group dimensions of every width (vs_dims): hostile numInGroup x blockLength products up to 2^128 (the true size does not fit in size_t; entries of a flat group must
+    # still be validated against n one by one or with arithmetic that cannot wrap), nested groups with 64-bit counts
+    sch4, inc4 = hgen.gen_headers(ctx, "vs_dims.xml")
+    sels[id(sch4)] = [("m_uint64_uint64", 30), ("m_uint8_uint64", 22), ("m_uint64_uint16", 24), ("n_uint64", 34)] if ctx.quick else \
+        [("m_%s_%s" % (a, b), 34) for a in ("uint8", "uint16", "uint32", "uint64") for b in ("uint8", "uint16", "uint32", "uint64") if "64" in a + b or a == b] + [("n_uint64", 40), ("n_uint32_uint64", 40), ("n_uint64_uint8", 40)]
+    plan += [(sch4, inc4, "17", "unchecked")]
     open_f = [f for f in KF if f in ctx.open]
     for (s_, inc_, std, mode) in plan:
         for (mname, nmax) in sels.get(id(s_), sel):
